@@ -279,6 +279,19 @@ def eval_commas(ctx, case):
         ctx.fail('commas-must-not-raise', case, detail)
     elif got != want:
         ctx.fail('commas-round-trip', case, detail)
+    else:
+        # call history: what the caller does with a returned list must not show in a later answer
+        ctx.clause('commas-history-independent')
+        got.append('edited-by-caller')
+        got.sort()
+        if got:
+            got.pop(0)
+        try:
+            again = strutils.split_by_commas(text)
+        except BaseException as e:  # noqa
+            again = e
+        if again != want:
+            ctx.fail('commas-history-independent', case, {'text': text, 'second_call': again, 'want': want})
 
 
 def evaluate(ctx, case):
